@@ -481,10 +481,12 @@ def compare_model(case: dict[str, Any], run: dict[str, Any], o: dict[str, Any], 
         res.disagreement("driver error", case, run["impl"], o)
         return
     m = o["result"]
-    if lib.is_unsupported(m):
-        res.unsupported += 1
-        return
     impl = run["impl"]
+    if lib.is_unsupported(m):
+        # the model left the recorded run (the replaying token or the hash table was asked something that was not
+        # recorded): a difference between model and implementation, never silently "unsupported"
+        res.disagreement("trustanchor: model leaves the recorded run (replay / oracle miss)", case, impl, m, log_difference=C.first_log_difference(run["log"], o["log"]))
+        return
     d = C.first_log_difference(run["log"], o["log"])
     if ("ok" in impl) != (isinstance(m, dict) and "ok" in m):
         res.disagreement("trustanchor: model result != implementation", case, impl, {k: v for k, v in m.items() if k != "ok"} if isinstance(m, dict) else m, log_difference=d)
